@@ -416,7 +416,15 @@ structure Input where
   conv : List (Ty × Ty) := []
   manualW : List String := []      -- field paths assigned in the body of the manual write hook (toX/writeX): pre-claimed
   manualR : List String := []      -- … of the manual read hook (fromX/readX)
+  /-- some struct embeds a POINTER to a struct it lies inside of (`type T struct{ *T; … }`, or T embeds B and B embeds *T).
+      The trees hold the finite unfolding: such an embed is a pointer embed with an empty body (all it could promote is
+      hidden by the shallower occurrence) -/
+  cyclic : Bool := false
   deriving Repr, Inhabited
+
+/-- expandIfStruct / extractStructFields (fields.go) follow embedded structs without bound: on a cyclic embedding the
+    field walk never returns (the process dies when it runs out of stack or memory) -/
+def genDiverges (inp : Input) : Bool := inp.cyclic
 
 /-- `g.exportedFields` after makeCompatible: exported flattened fields, then getters, then setters -/
 def sideFields (t : Tree) (isNew : Bool) : List Field :=
